@@ -166,7 +166,14 @@ const (
 	nShapes
 )
 
+// values around the 32-bit range limits (as two's-complement 64-bit words), where the 32-bit accessors have to report overflow
+var edges32 = []int64{math.MinInt32 - 1, math.MinInt32, math.MinInt32 + 1, -1 << 32, -1<<32 - 1, -1<<32 + 1, -3000000000,
+	math.MaxInt32 + 1, math.MaxUint32, math.MaxUint32 + 1, math.MaxUint32 - 1, math.MinInt64, math.MaxInt64, math.MinInt64 + 1}
+
 func rnd64(r *rand.Rand) uint64 {
+	if r.Intn(6) == 0 {
+		return uint64(edges32[r.Intn(len(edges32))])
+	}
 	switch r.Intn(7) {
 	case 0:
 		k := uint(r.Intn(65))
@@ -553,6 +560,44 @@ type ctx struct {
 	viaRes  bool // use the DecodeResult.XxxValue(tag) helpers instead of FieldData for single tags
 	noPtr   bool // do not touch the shared pointer table (race-detector runs: no harness-side synchronisation)
 	handles []*handle
+	// accessor calls that succeeded on each pooled result object, replayed when the pool hands the object out again: a value
+	// cached inside the object by an earlier holder's call is then rewritten while the earlier holder's slices are still retained
+	calls    map[int][]memCall
+	replayed map[int]bool
+}
+
+type memCall struct {
+	acc  string
+	path []int
+}
+
+// remember / replayFor implement the accessor-call memory (sequential families only)
+func (c *ctx) remember(h *handle, acc string, path []int) {
+	if c.noPtr || h.res == nil || len(path) != 1 {
+		return
+	}
+	if c.calls == nil {
+		c.calls = map[int][]memCall{}
+	}
+	id := ptrID(h.res)
+	if len(c.calls[id]) < 16 {
+		c.calls[id] = append(c.calls[id], memCall{acc, append([]int{}, path...)})
+	}
+}
+
+func (c *ctx) replayFor(h *handle) {
+	if c.noPtr || h.res == nil || !h.live {
+		return
+	}
+	id := ptrID(h.res)
+	calls := c.calls[id]
+	if len(calls) == 0 {
+		return
+	}
+	c.calls[id] = nil // the replayed calls are remembered again by access()
+	for _, mc := range calls {
+		c.access(h, mc.acc, mc.path)
+	}
 }
 
 func (c *ctx) newHandle(res *lazyproto.DecodeResult, def lazyproto.Def, top bool, mode int) *handle {
@@ -565,6 +610,7 @@ func (c *ctx) newHandle(res *lazyproto.DecodeResult, def lazyproto.Def, top bool
 func (c *ctx) reset() {
 	c.nh = 0
 	c.handles = nil
+	c.calls = nil
 	c.sink(&LEv{C: "reset", G: c.g})
 }
 
@@ -609,6 +655,9 @@ func (c *ctx) decodeObj(dec *lazyproto.Decoder, def lazyproto.Def, data []byte, 
 		snapshot(e, res)
 	}
 	c.sink(e)
+	if e.Ptr != 0 && c.g == 0 {
+		c.replayFor(h)
+	}
 	return h
 }
 
@@ -665,6 +714,9 @@ func (c *ctx) access(h *handle, acc string, path []int) {
 		h.saved = append(h.saved, sv)
 	}
 	c.sink(e)
+	if e.St == "ok" {
+		c.remember(h, acc, path)
+	}
 }
 
 func (c *ctx) nested(h *handle, tag int, all bool) []*handle {
@@ -703,6 +755,11 @@ func (c *ctx) nested(h *handle, tag int, all bool) []*handle {
 		}
 	}
 	c.sink(e)
+	if c.g == 0 {
+		for _, k := range out {
+			c.replayFor(k)
+		}
+	}
 	return out
 }
 
@@ -821,16 +878,18 @@ func (c *ctx) exercise(h *handle, depth int, full bool) {
 	tags := append([]int{}, tagPool...)
 	tags = append(tags, 7, -1, -3)
 	for _, t := range tags {
-		if !full && c.r.Intn(3) > 0 {
+		// declared tags are where values flow: most accessors most of the time; undeclared ones now and then
+		_, declared := h.def[t]
+		if !full && !declared && c.r.Intn(3) > 0 {
 			continue
 		}
 		for _, a := range scalarAccs {
-			if full || c.r.Intn(3) == 0 {
+			if full || (declared && c.r.Intn(2) == 0) || c.r.Intn(3) == 0 {
 				c.access(h, a, []int{t})
 			}
 		}
 		for _, a := range sliceAccs {
-			if full || c.r.Intn(3) == 0 {
+			if full || (declared && c.r.Intn(2) == 0) || c.r.Intn(3) == 0 {
 				c.access(h, a, []int{t})
 			}
 		}
@@ -1026,9 +1085,15 @@ func poolInputs(r *rand.Rand) (lazyproto.Def, [][]byte) {
 		}
 		return b
 	}
+	// a well-formed message whose repeated nested field holds decodable elements followed by one that is not a message
+	// (NestedResults fails after having taken nested results from the pool), then a decodable one again
+	badNested := mk(1, 0, 2, false)
+	badNested = protowire.AppendTag(badNested, 3, protowire.BytesType)
+	badNested = protowire.AppendBytes(badNested, []byte{0x08, 0x80}) // truncated varint inside the nested payload
+	badNested = append(badNested, mk(0, 0, 1, false)...)
 	ins := [][]byte{
 		mk(0, 0, 0, false), mk(1, 0, 0, false), mk(3, 1, 0, false), mk(0, 3, 2, false),
-		mk(1, 1, 3, false), mk(5, 0, 5, true), mk(2, 2, 1, false), {0x08}, // last one: malformed (truncated)
+		mk(1, 1, 3, false), mk(5, 0, 5, true), mk(2, 2, 1, false), badNested, {0x08}, // last one: malformed (truncated)
 	}
 	return def, ins
 }
